@@ -21,6 +21,7 @@ import Props.C05_xmlvalues
 #print axioms SpyneModel.Props.C05hier.facts02_body
 #print axioms SpyneModel.Props.C05hier.facts02_good
 #print axioms SpyneModel.Props.C05hier.facts02_nofreq
+#print axioms SpyneModel.Props.C05hier.facts02_attr_caches
 #print axioms SpyneModel.Props.C05hier.facts02_values_none
 #print axioms SpyneModel.Props.C05hier.facts02_bint
 #print axioms SpyneModel.Props.C05hier.hier_soft_accepts_only_conformant
